@@ -454,7 +454,7 @@ def same_single(a, b, aux):
         cb = [hole_canon(h, aux) for h in hb]
         if None in ca or None in cb:
             holes = 'T' if ha == hb else None
-        elif sorted(ca) == sorted(cb):
+        elif sorted(ca, key=repr) == sorted(cb, key=repr):
             holes = 'T'
         elif set(ca) != set(cb) or len(ca) != len(cb):
             holes = 'F'
@@ -471,10 +471,15 @@ def same_single(a, b, aux):
     verdicts = [same_single(x, y, aux) for x, y in zip(ha, hb)]
     if all(v == 'T' for v in verdicts):
         return 'T'
-    # different hole geometry (whatever the order / the time of the hole objects) must be unequal
-    ca = [hole_canon(h, aux) for h in ha]
-    cb = [hole_canon(h, aux) for h in hb]
-    if None not in ca and None not in cb and sorted(ca) != sorted(cb):
+    # different hole geometry (whatever the order / the time of the hole objects) must be unequal: vertex-defined holes
+    # by the ring they cut out, curved holes by their exact defining fields (a radius differing in the last bit is another hole)
+    def geo(h):
+        if h[0] in ('P', 'B'):
+            return hole_canon(h, aux)
+        return ('fields',) + tuple(repr(x) for x in geom_fields(h))
+    ca = [geo(h) for h in ha]
+    cb = [geo(h) for h in hb]
+    if None not in ca and None not in cb and sorted(ca, key=repr) != sorted(cb, key=repr):
         return 'F'
     return None
 
